@@ -120,7 +120,7 @@ var c01Vals = []string{"1", "2", "linux", "darwin", "Intel(R) Core(TM) i7", "x  
 	// trailing blanks and Unicode white space at either end belong to the value (only leading ASCII blanks/tabs separate it from the key)
 	"padded   ", "tab\t", "2.20GHz ", "\u00a0x", "x\u00a0", "x\u3000", "v\v", "\u2003both\u2003", "ctl\x1b[0m", "\x00"}
 var c01Units = []string{"ns/op", "MB/s", "B/op", "allocs/op", "ns/ns", "MB*ns/op", "foo-ns", "xns", "custom", "ns", "sec/op", "B/s", "ns/MB", "é/op", "u\x1f/op", "\x01ns"}
-var c01NamePieces = []string{"\x1b", "\x00", "X", "Y", "Foo", "/", "=", "-", "8", "16", "k", "v", "é", "世", "\xff", "sub", "_", ":", "*"}
+var c01NamePieces = []string{"Benchmark", "\x1b", "\x00", "X", "Y", "Foo", "/", "=", "-", "8", "16", "k", "v", "é", "世", "\xff", "sub", "_", ":", "*"}
 var c01MetaUnits = []string{"ns/op", "B/op", "allocs/op", "MB/s", "foo-ns", "custom"}
 var c01MetaKeys = []string{"better", "assume", "k", "é", "a:b"}
 var c01MetaVals = []string{"higher", "lower", "exact", "nothing", "", "x=y", "é"}
@@ -160,6 +160,20 @@ func genFloat(T *sim.Tape) float64 {
 	default:
 		return 0.1 * float64(T.Intn(100, "ftenth"))
 	}
+}
+
+func genIters(T *sim.Tape) int {
+	switch T.Intn(12, "iters-kind") {
+	case 0:
+		return 0
+	case 1:
+		return math.MaxInt64
+	case 2:
+		return -1 - T.Intn(1000, "iters-neg") // not produced by the testing package, but an int the API accepts and the format can carry
+	case 3:
+		return 1 << (31 + T.Intn(32, "iters-shift"))
+	}
+	return T.Intn(5, "iters") * (1 + T.Intn(1000, "iters2"))
 }
 
 func genName(T *sim.Tape) string {
@@ -277,6 +291,13 @@ func (h *c01Hist) write(rec Record, what string) bool {
 
 func (h *c01Hist) step() bool {
 	T := h.T
+	if T.Intn(30, "syntax-error-record") == 0 {
+		// a reader's positioned error passed along by a filter: not part of the stream, writes nothing
+		if err := h.w.Write(&SyntaxError{FileName: "f", Line: 1 + T.Intn(9, "errline"), Msg: "missing iteration count"}); err != nil {
+			h.r.Fail("roundtrip", "api/syntax-error-record-rejected", "Writer.Write(*SyntaxError) = %v", err)
+		}
+		h.r.Hit("syntax error record handed to the writer")
+	}
 	kind := T.Intn(10, "op")
 	if h.prev == nil && kind != 9 {
 		kind = 0
@@ -291,7 +312,7 @@ func (h *c01Hist) step() bool {
 		md := &UnitMetadata{UnitMetadataKey: UnitMetadataKey{Unit: u, Key: k}, OrigUnit: u, Value: sim.Pick(T, c01MetaVals, "mval")}
 		return h.write(md, "meta")
 	case kind <= 2: // fresh literal
-		res := &Result{Name: Name(genName(T)), Iters: T.Intn(5, "iters") * (1 + T.Intn(1000, "iters2")), Values: genValues(T, true)}
+		res := &Result{Name: Name(genName(T)), Iters: genIters(T), Values: genValues(T, true)}
 		nk := T.Small(0, 6, "nkeys")
 		used := map[string]bool{}
 		for i := 0; i < nk; i++ {
